@@ -89,7 +89,11 @@ func New(dir string, ln net.Listener, opt Options) (*Node, error) {
 		return nil, fmt.Errorf("open store: %v", err)
 	}
 
-	n.ShardWriter = coordinator.NewShardWriter(5*time.Second, 2*time.Second, time.Minute, 10)
+	writeTimeout := 5 * time.Second
+	if opt.RPCTimeout > 0 {
+		writeTimeout = opt.RPCTimeout
+	}
+	n.ShardWriter = coordinator.NewShardWriter(writeTimeout, 2*time.Second, time.Minute, 10)
 	n.ShardWriter.MetaClient = n.Meta
 	rpcTimeout := 10 * time.Second
 	if opt.RPCTimeout > 0 {
